@@ -2,7 +2,12 @@
 """Print the prompt given to a mutant-writing sub-agent for one property (dev tool)."""
 import json, sys
 pid = sys.argv[1]
-wt = f"/tmp/wt/{pid}"
+rnd = sys.argv[2] if len(sys.argv) > 2 else ""
+wt = f"/tmp/wt/{rnd}{pid}"
+extra = "" if not rnd else (" In this round prefer the LESS obvious sites: helper and utility code, validation, base classes, "
+                            "penalty / threshold construction, conversions, caching and state handling, parameter plumbing between "
+                            "classes - rather than the most central line of the main algorithm loop - and make at least TWO of the "
+                            "three mutants need a rare input or boundary configuration to manifest.")
 prop = None
 for l in open("/verif/properties.jsonl"):
     d = json.loads(l)
@@ -28,7 +33,7 @@ THE PROPERTY (a semantic property that the library is supposed to satisfy):
 
 YOUR TASK: produce THREE independent changes (mutants) to the library source under {wt}/skchange/ (not to tests), each of which BREAKS this property while
   (a) the library still imports and the existing test suite gives exactly the baseline result (same 906 passes, same 6 failures, no new failures or errors), and
-  (b) the breakage needs something specific to manifest - a particular unusual input, boundary configuration, tie, multi-step sequence of calls, or two cooperating code sites that each look fine alone - rather than being exposed at once by ordinary use on typical data. Prefer realistic slips a developer could make during a refactor or optimisation (off-by-one in an index or bound, a wrong comparison operator, a premature pruning/early exit, a stale cache, a wrong tie-break, a dropped term, an argument passed in the wrong position, a condition that only matters at a boundary). The three mutants should attack DIFFERENT mechanisms / code sites of the property, and at least one should be really hard to notice (very rare inputs).
+  (b) the breakage needs something specific to manifest - a particular unusual input, boundary configuration, tie, multi-step sequence of calls, or two cooperating code sites that each look fine alone - rather than being exposed at once by ordinary use on typical data. Prefer realistic slips a developer could make during a refactor or optimisation (off-by-one in an index or bound, a wrong comparison operator, a premature pruning/early exit, a stale cache, a wrong tie-break, a dropped term, an argument passed in the wrong position, a condition that only matters at a boundary). The three mutants should attack DIFFERENT mechanisms / code sites of the property, and at least one should be really hard to notice (very rare inputs).{extra}
 
 For each mutant k in 1..3 create the directory {wt}/out/m<k>/ containing
   - patch.diff : output of `git diff` (relative to HEAD, from the worktree root) for that mutant alone; it must apply with `git apply` on a clean worktree;
